@@ -211,14 +211,24 @@ func runQScan(seed int64, dir, out string) *qsReport {
 		pubs[key] = pubInfo{time.Now(), d}
 		pmu.Unlock()
 		pcn.send(fmt.Sprintf("DPUB %s %d\n", t, d/time.Millisecond), lenPrefixed([]byte(key+"|x")))
-		if i%9 == 4 && next < nchan {
+		if i%9 == 4 && i < 36 && next < nchan {
 			mkChan(next)
 			next++
 		}
-		if i == 40 && len(chanNames["t1"]) > 1 {
-			c := chanNames["t1"][0]
-			chanNames["t1"] = chanNames["t1"][1:]
-			go nd.post("/channel/delete?topic=t1&channel="+c, nil)
+		if i == 40 || i == 55 || i == 70 {
+			// one channel goes and another one comes, back to back: as many channels as before, but not the same ones --
+			// the newcomer (its consumer leaves every first delivery to time out) needs its deadlines looked after too
+			t := topics[(i/5)%2]
+			if len(chanNames[t]) > 1 {
+				c := chanNames[t][0]
+				chanNames[t] = chanNames[t][1:]
+				nd.post("/channel/delete?topic="+t+"&channel="+c, nil)
+				nm := fmt.Sprintf("s%d", i)
+				if st, _, err := nd.post("/channel/create?topic="+t+"&channel="+nm, nil); err == nil && st == 200 {
+					chanNames[t] = append(chanNames[t], nm)
+					startConsumer(t, nm, true)
+				}
+			}
 		}
 		time.Sleep(time.Duration(3+rng.Intn(12)) * time.Millisecond)
 	}
@@ -246,7 +256,7 @@ func runQScan(seed int64, dir, out string) *qsReport {
 	atomic.StoreInt32(&stop, 2)
 	wg.Wait()
 	if !drained {
-		failf("[C04] 12 s after the last publish some channel still holds queued / in-flight / deferred messages although every consumer answers: a deadline is not being picked up")
+		failf("[C01][C04] 12 s after the last publish some channel still holds queued / in-flight / deferred messages although every consumer answers: a deadline is not being picked up, what waits behind it is not redelivered")
 	}
 	bound := int64(time.Second)
 	if l0 := 25 * atomic.LoadInt64(&maxOversleep); l0 > bound {
